@@ -4,7 +4,7 @@
 (* behaviours of EzspCmd.tla: what is handed to the link layer (sequence     *)
 (* number and frame ID decoded by the harness's own header decoder), what    *)
 (* every call returns or raises and when, and what reaches the callbacks.    *)
-EXTENDS EzspCmd, Json, IOUtils, TLCExt, TLC, Integers
+EXTENDS EzspCmd, EzspCodec, Json, IOUtils, TLCExt, TLC, Integers
 
 Traces == JsonDeserialize(IOEnv.TRACE_FILE)
 VARIABLES p, inflight, tid, l
@@ -19,6 +19,38 @@ Take(e, r) ==
            dones == SelectSeq(e.out, LAMBDA o : o.o = "done") IN
          inflight' = (inflight \cup {sents[i].c : i \in 1 .. Len(sents)}) \ {dones[i].c : i \in 1 .. Len(dones)}
 
+(* ---- C08: arbitrary bytes arriving as an EZSP frame ------------------------------------ *)
+(* e.raw   : the bytes;  e.ver : active protocol version                                    *)
+(* e.cbid  : frame ID of the command name a callback was invoked with (-1 if none)           *)
+(* e.reenc : re-encoding of the values handed to that callback                               *)
+(* e.ids   : frame IDs of the active version's table;  e.icid : ID of invalidCommand         *)
+(* e.nvals / e.nfields : values handed to the callback / fields the frame's schema declares  *)
+(* The frame may: do nothing; drop a registration with its sequence number; reach the        *)
+(* callbacks if it carries a known ID and its payload starts with the encoding of the values *)
+(* handed over; complete the pending call only if sequence number AND frame ID are that      *)
+(* call's own.                                                                               *)
+IsPrefix2(a, b) == Len(a) <= Len(b) /\ SubSeq(b, 1, Len(a)) = a
+MalAlts(e) ==
+    LET lay  == Layout(e.ver)
+        hl   == IF lay = "legacy3" THEN 3 ELSE 5
+        ok   == Len(e.raw) >= hl
+        h    == IF ok THEN ParseRx(lay, e.raw) ELSE <<IF Len(e.raw) >= 1 THEN e.raw[1] ELSE 0, 0 - 1, hl>>
+        sq   == h[1]
+        fid  == h[2]
+        pay  == IF ok THEN SubSeq(e.raw, hl + 1, Len(e.raw)) ELSE <<>>
+        p1   == IF sq \in DOMAIN p.aw THEN [p EXCEPT !.aw = AwDel(p.aw, sq)] ELSE p
+        cbs  == SelectSeq(e.out, LAMBDA o : o.o = "cb")
+        dns  == SelectSeq(e.out, LAMBDA o : o.o = "done")
+        cbOk == ok /\ Len(cbs) = 1 /\ fid \in ToSet(e.ids) /\ e.cbid = fid /\ IsPrefix2(e.reenc, pay)
+                   /\ e.nvals = e.nfields          \* one value per declared field of that frame
+        own  == ok /\ sq \in DOMAIN p.aw /\ p.aw[sq].live /\ p.hold.c = p.aw[sq].c /\ p.hold.ph = "waiting"
+    IN  {PR(p, <<>>), PR(p1, <<>>)}
+        \cup (IF cbOk THEN {PR(p, <<cbs[1]>>), PR(p1, <<cbs[1]>>)} ELSE {})
+        \cup (IF own /\ fid = e.pid /\ Len(dns) >= 1 /\ dns[1].res = "ok"
+              THEN {Grant([p1 EXCEPT !.hold = NoHold], <<DoneR(p.hold.c, "ok", dns[1].val)>>, e.modes, e.t)} ELSE {})
+        \cup (IF own /\ fid = e.icid /\ Len(dns) >= 1 /\ dns[1].res = "invalid"
+              THEN {Grant([p1 EXCEPT !.hold = NoHold], <<DoneR(p.hold.c, "invalid", 0)>>, e.modes, e.t)} ELSE {})
+
 TNext ==
   /\ l <= Len(Tr)
   /\ LET e == Tr[l] IN
@@ -28,7 +60,7 @@ TNext ==
        \/ e.a = "cancel" /\ Take(e, CancelFn(p, e.c, e.modes, e.t))
        \/ e.a = "frame" /\ e.raised = 0 /\
              \E alt \in FrameAlts(p, [seq |-> e.seq, cmd |-> e.cmd, val |-> e.val], e.modes, e.t) : Take(e, alt)
-       \/ e.a = "junk" /\ e.raised = 0 /\ e.out = <<>> /\ UNCHANGED <<p, inflight>>   \* undecodable / unknown frame: contained
+       \/ e.a = "mal" /\ e.raised = 0 /\ \E alt \in MalAlts(e) : Take(e, alt)
        \/ e.a = "end" /\ e.pending = <<>> /\ p.hold.c = 0 /\ p.wq = <<>> /\ UNCHANGED <<p, inflight>>
   /\ l' = l + 1 /\ UNCHANGED tid
 TSpec == TInit /\ [][TNext]_tvars
